@@ -324,7 +324,7 @@ int main(int argc, char **argv)
 {
     vf_init(argc, argv, "C16", "model_checking");
     int th = vf_is_thorough();
-    if (th && vf_deadline_s == 1500) vf_deadline_s = 2700;     /* the second bound on the core harnesses alone takes ~20 minutes */
+    if (th && vf_deadline_s == 1500) vf_deadline_s = 3600;     /* the second bound on the core harnesses alone takes 20-45 minutes depending on load */
     load_interesting();
     B.bound_all = th ? 2 : 1; B.bound_interesting = th ? 3 : 2;
     if (getenv("C16_BOUND_ALL")) B.bound_all = atoi(getenv("C16_BOUND_ALL"));
